@@ -8,6 +8,22 @@ C15.FAIL  failure totality on the exception-aware CFG: every way of leaving task
 C15.SETS  succeeded/failed component sets are complementary by construction.
 C15.ALL   one set_power per entry of the distribution; timed-out calls are cancelled and
           awaited before results are read.
+
+All rules work on the *analysis view* of a function (`_norm`: private helpers spliced in -- also
+helpers that return from several if/else arms --, single-assignment locals substituted) and bind
+roles by dataflow, not by local names (see `_c15_util`):
+  * the request is the parameter typed `Request`; constructor fields are taken by field name whether
+    passed by keyword or by position (dataclass field order read from result.py);
+  * the failed-power accumulator / failed set are the locals that flow into
+    `PartialFailure(failed_power=, failed_components=)` -- for the battery manager through the pair
+    returned by `_parse_result` -> `_set_distributed_power` -> unpacked in `_distribute_power`;
+  * the allocation map is the parameter whose entry `X[key]` is added to the failed power; the task map
+    is the dict that receives the `set_power` tasks; the key is the result loop's key variable;
+  * "accumulate" is `L += e` / `L = L + e` / `L = e + L` (polynomial normal form), "set growth" is
+    `.add` / `.update` / `|=` / `S = S | ..`; guards (`len(F) > 0`, `F`, `not len(F) == 0`, ternaries,
+    early returns, swapped arms) are decided on the CFG with canonical emptiness conditions;
+  * flag idioms (`failed = True .. failed = False .. if failed:` in any polarity) are decided by the
+    boolean-flag-sensitive path search, the same way for handler paths and for the success path.
 """
 from __future__ import annotations
 
@@ -15,11 +31,15 @@ import ast
 from typing import Any
 
 from ..engine.cfg import CFG
+from ..engine.normalize import ANCHOR_NAMES, normalize
 from ..engine.report import AnalysisError, Run
-from ..engine.resolver import ClassInfo, FuncInfo, Program, body_walk, walk_no_nested
-from ..engine.terms import Poly, TermEval, flow_eval, resolve_env
-from ..engine.util import (
-    find_calls, method_call, node_calls, node_has_call, node_writes, nodes_with_call, u,
+from ..engine.resolver import ClassInfo, FuncInfo, Program, body_walk
+from ..engine.terms import Poly, TermEval, flow_eval
+from ..engine.util import find_calls, method_call, node_calls, node_writes, nodes_with_call, normal_edge, u
+from ._c15_util import (
+    all_ctors, bound_args, cancel_and_gather, ctor_kind, guarded_by_emptiness, loop_binding, match_send,
+    method_params, name_delta, result_fields, self_calls, set_growth, set_term, show_term, splice_tail_helpers,
+    subscript_atom, typed_param,
 )
 
 BM = "microgrid._power_distributing._component_managers._battery_manager:BatteryManager"
@@ -50,13 +70,60 @@ def const_fields(prog: Program, cls: ClassInfo) -> dict[str, Poly]:
     return out
 
 
+def _norm(prog: Program, fn: FuncInfo) -> FuncInfo:
+    """Analysis view of a function: simple private helpers spliced in, single-assignment locals
+    substituted (if/else is kept as control flow: guards are read from the CFG)."""
+    view, _spliced = splice_tail_helpers(prog, fn)
+    return normalize(prog, view, diamonds=False)
+
+
+def _covered_at_call_sites(prog: Program, cls: ClassInfo, m: FuncInfo) -> bool:
+    """A private, non-anchored helper whose every call site inside the class is spliced into the
+    caller's analysis view is decided there (in context), not on its own."""
+    if not m.name.startswith("_") or m.name.startswith("__") or m.name in ANCHOR_NAMES:
+        return False
+    callers = [c for c in cls.methods.values() if c is not m and m.name in self_calls(c.node)]
+    return bool(callers) and all(m.name not in self_calls(_norm(prog, c).node) for c in callers)
+
+
+def request_param(fn: FuncInfo) -> str:
+    req = typed_param(fn, "Request", "request")
+    if req is None:
+        raise AnalysisError(f"{fn.qual}: no `Request` parameter to account against")
+    return req
+
+
+def ctor_fields(prog: Program, fn: FuncInfo, c: ast.Call) -> tuple[str, dict[str, ast.AST]]:
+    """(kind, field name -> argument) of a Success/PartialFailure construction (keyword or positional)."""
+    kind = ctor_kind(c)
+    fields = bound_args(c, result_fields(prog, kind), f"{fn.qual}: {kind}(...)")
+    need = ["request", "succeeded_power", "succeeded_components", "excess_power"] + (
+        ["failed_power", "failed_components"] if kind == "PartialFailure" else [])
+    if any(k not in fields for k in need):
+        raise AnalysisError(f"{fn.qual}: {kind}(...) without the fields {need}")
+    return kind, fields
+
+
+def _site(cfg: CFG, fn: FuncInfo, c: ast.AST) -> int:
+    sites = cfg.node_containing(c)
+    if not sites:
+        raise AnalysisError(f"{fn.qual}: constructor site not found in the CFG")
+    return sites[0]
+
+
 def check_identity(run: Run, prog: Program) -> None:
     n_ctor = 0
     for cq in (BM, PV):
         cls = prog.cls(cq)
         consts = const_fields(prog, cls)
-        for m in cls.methods.values():
-            ctors = find_calls(m.node, lambda c: u(c.func) in ("Success", "PartialFailure"))
+        builders = {m0.name for m0 in cls.methods.values() if all_ctors(m0.node)}
+        for _ in range(2):  # methods that obtain a result from a (spliceable) builder helper
+            builders |= {m0.name for m0 in cls.methods.values() if builders & set(self_calls(m0.node))}
+        for m0 in cls.methods.values():
+            if m0.name not in builders or _covered_at_call_sites(prog, cls, m0):
+                continue
+            m = _norm(prog, m0)
+            ctors = all_ctors(m.node)
             if not ctors:
                 continue
             run.analysed(m.qual)
@@ -67,38 +134,32 @@ def check_identity(run: Run, prog: Program) -> None:
                 return None
 
             cfg = CFG(m.node, m.file)
-            req_param = next((p for p in m.params if p == "request"), None)
-            if req_param is None:
-                raise AnalysisError(f"{m.qual}: no `request` parameter to account against")
-            want = TermEval().ev(ast.parse("request.power", mode="eval").body)
+            req = request_param(m)
+            want = Poly.atom(f"{req}.power")
             for c in ctors:
                 n_ctor += 1
-                kws = {k.arg: k.value for k in c.keywords if k.arg}
-                kind = u(c.func)
+                kind, fields = ctor_fields(prog, m, c)
                 need = ["succeeded_power", "excess_power"] + (["failed_power"] if kind == "PartialFailure" else [])
-                if any(k not in kws for k in need):
-                    raise AnalysisError(f"{m.qual}: {kind}(...) without keyword fields {need}")
-                sites = cfg.node_containing(c)
-                if not sites:
-                    raise AnalysisError(f"{m.qual}: constructor site not found in the CFG")
+                site = _site(cfg, m, c)
                 total = Poly()
                 for k in need:
-                    total = total + flow_eval(cfg, sites[0], kws[k], hook)
+                    total = total + flow_eval(cfg, site, fields[k], hook)
                 ok = total == want
                 detail = ""
                 if not ok:
-                    zero_fields = [f"self.{a.attr}" for k in need for a in ast.walk(kws[k])
+                    zero_fields = [f"self.{a.attr}" for k in need for a in ast.walk(fields[k])
                                    if isinstance(a, ast.Attribute) and u(a.value) == "self"
                                    and a.attr in consts]
-                    detail = (f"{' + '.join(need)} normalises to `{total!r}`, not `request.power`"
+                    detail = (f"{' + '.join(need)} normalises to `{total!r}`, not `{req}.power`"
                               + (f"; note {sorted(set(zero_fields))} is only ever assigned "
                                  "a zero constant in this class" if zero_fields else ""))
                 run.check(ok, "C15.ID", m.qual,
-                          f"{kind}(succeeded_power={u(kws['succeeded_power'])})",
+                          f"{kind}(succeeded_power={u(fields['succeeded_power'])})",
                           f"the reported powers do not add up to the request: {detail}",
                           node=c, file=m.file,
                           instance=f"{m.qual}: {kind} succeeded+failed+excess == request.power")
-                run.check(u(kws.get("request")) == "request", "C15.ID", m.qual,
+                carried = flow_eval(cfg, site, fields["request"], hook).as_atom()
+                run.check(carried == req, "C15.ID", m.qual,
                           f"{kind}(request=...)", "the result does not carry the processed request",
                           node=c, file=m.file, instance=f"{m.qual}: {kind} carries the request")
                 run.sample({"function": m.qual, "result": kind, "sum_normal_form": repr(total)})
@@ -107,76 +168,234 @@ def check_identity(run: Run, prog: Program) -> None:
 
 
 # ---------------------------------------------------------------------------------------------
-def check_fail(run: Run, prog: Program) -> None:
-    targets = [prog.func(f"{BM}._parse_result"), prog.func(f"{PV}._set_api_power")]
-    for fn in targets:
+# role binding across BatteryManager._distribute_power -> _set_distributed_power -> _parse_result
+def _is_result_call(c: ast.Call) -> bool:
+    return isinstance(c.func, ast.Attribute) and c.func.attr == "result" and not c.args and not c.keywords
+
+
+def _unawait(e: ast.AST | None) -> ast.AST | None:
+    return e.value if isinstance(e, ast.Await) else e
+
+
+def _unpack_of(fn: FuncInfo, callee: str) -> tuple[ast.Assign, ast.Call, list[str]]:
+    """The statement `a, b = [await] self.<callee>(...)` of `fn`."""
+    hits = []
+    for s in body_walk(fn.node):
+        if isinstance(s, ast.Assign) and len(s.targets) == 1 and isinstance(s.targets[0], (ast.Tuple, ast.List)):
+            v = _unawait(s.value)
+            if isinstance(v, ast.Call) and method_call(v, "self", callee) \
+                    and all(isinstance(e, ast.Name) for e in s.targets[0].elts):
+                hits.append((s, v, [e.id for e in s.targets[0].elts]))  # type: ignore[union-attr]
+    if len(hits) != 1:
+        raise AnalysisError(f"{fn.qual}: expected one `x, y = self.{callee}(...)`, found {len(hits)}")
+    return hits[0]
+
+
+def _passthrough(prog: Program, fn: FuncInfo, callee: str) -> tuple[ast.Call, list[int]]:
+    """`fn` returns the pair produced by `self.<callee>(...)`; returns (the call, permutation)."""
+    rets = [n for n in body_walk(fn.node) if isinstance(n, ast.Return)]
+    calls = find_calls(fn.node, lambda c: method_call(c, "self", callee))
+    if len(calls) != 1 or not rets:
+        raise AnalysisError(f"{fn.qual}: expected one call of self.{callee} and a return")
+    call = calls[0]
+    perm: list[int] | None = None
+    for r in rets:
+        v = _unawait(r.value)
+        if v is call:
+            p = [0, 1]
+        elif isinstance(v, ast.Tuple) and len(v.elts) == 2 and all(isinstance(e, ast.Name) for e in v.elts):
+            _s, _c, names = _unpack_of(fn, callee)
+            if sorted(e.id for e in v.elts) != sorted(names) or len(set(names)) != 2:  # type: ignore[union-attr]
+                raise AnalysisError(f"{fn.qual}: returned pair is not the pair produced by self.{callee}")
+            p = [names.index(e.id) for e in v.elts]  # type: ignore[union-attr]
+        else:
+            raise AnalysisError(f"{fn.qual}: a return is not the (failed power, failed set) pair of self.{callee}")
+        if perm is not None and p != perm:
+            raise AnalysisError(f"{fn.qual}: returns disagree on the order of the pair")
+        perm = p
+    assert perm is not None
+    return call, perm
+
+
+class BatteryRoles:
+    """Who is who in the battery manager, from dataflow:
+
+    req / dist           the Request and DistributionResult parameters of _distribute_power
+    failed_set / failed_pow   the names bound from the pair returned by _set_distributed_power that
+                         flow into PartialFailure(failed_components=, failed_power=)
+    pr_pow / pr_set      the locals of _parse_result returned at those positions
+    """
+
+    def __init__(self, prog: Program) -> None:
+        self.dp = _norm(prog, prog.func(f"{BM}._distribute_power"))
+        self.sd = _norm(prog, prog.func(f"{BM}._set_distributed_power"))
+        self.pr = _norm(prog, prog.func(f"{BM}._parse_result"))
+        dp = self.dp
+        self.req = request_param(dp)
+        dist = typed_param(dp, "DistributionResult", "distribution")
+        if dist is None:
+            raise AnalysisError(f"{dp.qual}: no `DistributionResult` parameter")
+        self.dist = dist
+        self.dp_cfg = CFG(dp.node, dp.file)
+        self.unpack, self.sd_call, names = _unpack_of(dp, "_set_distributed_power")
+        pfs = [c for c in all_ctors(dp.node) if ctor_kind(c) == "PartialFailure"]
+        if not pfs:
+            raise AnalysisError(f"{dp.qual}: no PartialFailure is ever built")
+        if len(names) != 2 or len(set(names)) != 2:
+            raise AnalysisError(f"{dp.qual}: _set_distributed_power's result is not unpacked into a pair")
+        # which element of the pair is reported as failed power / failed components
+        self.issues: list[tuple[str, ast.AST, str]] = []
+        pow_idx: set[int] = set()
+        set_idx: set[int] = set()
+        for c in pfs:
+            _k, f = ctor_fields(prog, dp, c)
+            site = _site(self.dp_cfg, dp, c)
+            fs = set_term(self.dp_cfg, site, f["failed_components"])
+            fp = flow_eval(self.dp_cfg, site, f["failed_power"]).as_atom()
+            if fs[0] == "name" and fs[1] in names:
+                set_idx.add(names.index(fs[1]))
+            else:
+                self.issues.append(("C15.SETS", c, "PartialFailure.failed_components is not the failed set "
+                                    "returned by _set_distributed_power"))
+            if fp in names:
+                pow_idx.add(names.index(fp))  # type: ignore[arg-type]
+            else:
+                self.issues.append(("C15.ID", c, "PartialFailure.failed_power is not the failed power "
+                                    "returned by _set_distributed_power"))
+        if len(pow_idx) > 1 or len(set_idx) > 1 or (not pow_idx and not set_idx):
+            raise AnalysisError(f"{dp.qual}: failed power / failed set positions of the returned pair are ambiguous")
+        i_pow = next(iter(pow_idx)) if pow_idx else 1 - next(iter(set_idx))
+        i_set = next(iter(set_idx)) if set_idx else 1 - i_pow
+        if i_pow == i_set:
+            raise AnalysisError(f"{dp.qual}: one element of the returned pair is used as failed power and failed set")
+        self.failed_pow, self.failed_set = names[i_pow], names[i_set]
+        # through _set_distributed_power ...
+        self.pr_call, perm = _passthrough(prog, self.sd, "_parse_result")
+        j_pow, j_set = perm[i_pow], perm[i_set]
+        # ... into _parse_result's returned pair
+        rets = [n for n in body_walk(self.pr.node) if isinstance(n, ast.Return)]
+        got: set[tuple[str, str]] = set()
+        for r in rets:
+            v = r.value
+            if not (isinstance(v, ast.Tuple) and len(v.elts) == 2 and all(isinstance(e, ast.Name) for e in v.elts)):
+                raise AnalysisError(f"{self.pr.qual}: a return is not a (failed power, failed set) pair of locals")
+            got.add((v.elts[j_pow].id, v.elts[j_set].id))  # type: ignore[attr-defined]
+        if len(got) != 1:
+            raise AnalysisError(f"{self.pr.qual}: returns disagree on the (failed power, failed set) pair")
+        (self.pr_pow, self.pr_set), = got
+
+
+def pv_roles(prog: Program, pv: FuncInfo, cfg: CFG) -> tuple[str, str]:
+    """(failed-power accumulator, failed set) of PVManager._set_api_power: the locals that flow into
+    PartialFailure(failed_power=, failed_components=)."""
+    got: set[tuple[str, str]] = set()
+    for c in all_ctors(pv.node):
+        if ctor_kind(c) != "PartialFailure":
+            continue
+        _k, f = ctor_fields(prog, pv, c)
+        site = _site(cfg, pv, c)
+        fp = flow_eval(cfg, site, f["failed_power"]).as_atom()
+        fs = set_term(cfg, site, f["failed_components"])
+        if fp is None or not fp.isidentifier() or fs[0] != "name":
+            raise AnalysisError(f"{pv.qual}: PartialFailure(failed_power=, failed_components=) are not plain accumulators")
+        got.add((fp, fs[1]))
+    if len(got) != 1:
+        raise AnalysisError(f"{pv.qual}: expected one (failed power, failed set) pair, found {len(got)}")
+    return next(iter(got))
+
+
+# ---------------------------------------------------------------------------------------------
+def result_loop(cfg: CFG, qual: str) -> tuple[int, Any, str, str, set[int]]:
+    """(result() node, loop header, key variable, text of the iterated task map, loop body nodes)."""
+    res_nodes = nodes_with_call(cfg, _is_result_call)
+    if len(res_nodes) != 1:
+        raise AnalysisError(f"{qual}: expected one task.result() site, found {len(res_nodes)}")
+    r = res_nodes[0]
+    loops = [n for n in cfg.nodes if n.kind == "for" and r in cfg.reachable(
+        [m for m, lab in cfg.succ[n.id] if lab == "iter"], avoid=[n.id])]
+    if len(loops) != 1:
+        raise AnalysisError(f"{qual}: result loop not identified")
+    h = loops[0]
+    b = loop_binding(h.ast)
+    if b is None:
+        raise AnalysisError(f"{qual}: the result loop does not iterate over the entries of the task map")
+    tasks_map, key, task_var = b
+    recv = u(node_calls(cfg, r, _is_result_call)[0].func.value)  # type: ignore[attr-defined]
+    if recv != (task_var if task_var is not None else f"{tasks_map}[{key}]"):
+        raise AnalysisError(f"{qual}: .result() is not read from the task of the loop entry")
+    body = cfg.reachable([m for m, lab in cfg.succ[h.id] if lab == "iter"], avoid=[h.id])
+    return r, h, key, tasks_map, body
+
+
+def check_fail(run: Run, prog: Program, roles: BatteryRoles) -> dict[str, dict[str, str]]:
+    """Returns, per analysed function, the bindings other rules link to:
+    alloc (the map whose entry is booked as failed power), tasks (the iterated task map)."""
+    out: dict[str, dict[str, str]] = {}
+    pv = _norm(prog, prog.func(f"{PV}._set_api_power"))
+    pv_cfg = CFG(pv.node, pv.file)
+    targets = [(roles.pr, CFG(roles.pr.node, roles.pr.file), roles.pr_pow, roles.pr_set),
+               (pv, pv_cfg, *pv_roles(prog, pv, pv_cfg))]
+    for fn, cfg, fp_name, fs_name in targets:
         run.analysed(fn.qual)
-        cfg = CFG(fn.node, fn.file)
-        res_nodes = nodes_with_call(cfg, lambda c: isinstance(c.func, ast.Attribute)
-                                    and c.func.attr == "result" and not c.args)
-        if len(res_nodes) != 1:
-            raise AnalysisError(f"{fn.qual}: expected one task.result() site, found {len(res_nodes)}")
-        r = res_nodes[0]
-        # enclosing loop over the tasks
-        loops = [n for n in cfg.nodes if n.kind == "for" and r in cfg.reachable(
-            [m for m, lab in cfg.succ[n.id] if lab == "iter"], avoid=[n.id])]
-        if len(loops) != 1:
-            raise AnalysisError(f"{fn.qual}: result loop not identified")
-        h = loops[0]
-        tgt = h.ast.target  # type: ignore[union-attr]
-        key_var = u(tgt.elts[0]) if isinstance(tgt, ast.Tuple) else None
-        if key_var is None:
-            raise AnalysisError(f"{fn.qual}: loop does not iterate `for id, task in tasks.items()`")
-        body = cfg.reachable([m for m, lab in cfg.succ[h.id] if lab == "iter"], avoid=[h.id])
+        r, h, key_var, tasks_map, body = result_loop(cfg, fn.qual)
         # failed-power accumulation and failed-set update inside the loop
-        fp_nodes, fs_nodes = [], []
-        fp_name = None
-        for x in body:
+        te = TermEval()
+        fp_nodes: list[int] = []
+        fs_nodes: list[int] = []
+        stray: list[int] = []
+        allocs: set[str] = set()
+        for x in sorted(body):
             n = cfg.nodes[x]
-            s = n.ast
-            if n.kind != "stmt":
+            if n.kind != "stmt" or n.ast is None:
                 continue
-            if isinstance(s, ast.AugAssign) and isinstance(s.op, ast.Add) \
-                    and isinstance(s.value, ast.Subscript) and u(s.value.slice) == key_var:
-                fp_nodes.append(x)
-                fp_name = u(s.target)
-                alloc = u(s.value.value)
-            if isinstance(s, ast.Expr) and isinstance(s.value, ast.Call) and isinstance(
-                    s.value.func, ast.Attribute) and s.value.func.attr in ("add", "update") \
-                    and "fail" in u(s.value.func.value):
+            nd = name_delta(n.ast, te)
+            if nd is not None and nd[0] == fp_name:
+                sa = subscript_atom(nd[1])
+                if sa is not None and sa[1] == key_var:
+                    fp_nodes.append(x)
+                    allocs.add(sa[0])
+                else:
+                    stray.append(x)
+            elif any(u(w) == fp_name for w in node_writes(cfg, x)):
+                stray.append(x)
+            g = set_growth(n.ast)
+            if g is not None and g[0] == fs_name:
                 fs_nodes.append(x)
         if not fp_nodes or not fs_nodes:
             run.violation("C15.FAIL", fn.qual, "failed bookkeeping",
-                          "no `failed_power += <allocation>[id]` / failed-set update found in the "
+                          f"no `{fp_name} += <allocation>[{key_var}]` / `{fs_name}` update found in the "
                           "result loop", node=fn.node, file=fn.file)
             continue
+        for x in stray:
+            run.violation("C15.FAIL", fn.qual, cfg.nodes[x].ast,
+                          f"the failed power `{fp_name}` is changed by something else than the allocation of "
+                          "the component whose call failed", node=cfg.nodes[x].ast, file=fn.file)
+        if not stray:
+            run.ok("C15.FAIL", f"{fn.qual}: inside the result loop the failed power only changes by the "
+                               "allocation of the current component")
+        run.ok("C15.FAIL", f"{fn.qual}: one result() site, read from the task of the current loop entry")
         rn = cfg.nodes[r]
-        inloop = lambda a, b, lab: b in body or b == h.id  # noqa: E731
+        flags = cfg.bool_flags()
+        first_body = [m0 for m0, lab in cfg.succ[h.id] if lab == "iter"]
+        states = cfg.flag_states(first_body[0], flags, avoid=[h.id])
+        at_r = sorted(states.get(r, {()}))
         # 1. every exception kind of result() is caught inside the loop
         for kind, word in (("E", "an Exception (rejection, client error, unexpected error)"),
                            ("C", "a CancelledError (timed-out call)")):
             tg = [m for m, lab in cfg.succ[r] if lab == f"exc:{kind}"]
             caught = bool(tg) and all(cfg.nodes[m].kind == "handler" for m in tg)
-            wit = None
-            if caught:
-                # does some matching of that kind still propagate out of the function?
-                escapes = [m for m in tg if m == cfg.raise_exit]
-                caught = not escapes
             run.check(caught, "C15.FAIL", fn.qual, rn.ast,
                       f"{word} from task.result() is not caught by the result loop: the whole "
                       "accounting is abandoned and no result is reported", node=rn.ast, file=fn.file,
                       instance=f"{fn.qual}: result() {kind}-kind failures are caught")
             if not caught:
                 continue
-            flags = cfg.bool_flags()
-            first_body = [m0 for m0, lab in cfg.succ[h.id] if lab == "iter"]
-            states = cfg.flag_states(first_body[0], flags, avoid=[h.id])
             for m in tg:
                 hn = cfg.nodes[m]
                 # 2. from the handler to the next iteration: failed power and failed set exactly once
                 for nodes, what in ((fp_nodes, "failed power"), (fs_nodes, "failed component set")):
                     wit = None
-                    for st in sorted(states.get(r, {()})):
+                    for st in at_r:
                         wit = cfg.path_flags(m, [h.id, cfg.exit], flags, init=st, avoid=nodes)
                         if wit:
                             break
@@ -194,247 +413,298 @@ def check_fail(run: Run, prog: Program) -> None:
                               f"the {what} can be updated twice for one failed call",
                               node=hn.ast, file=fn.file, path=cfg.describe_path(twice),
                               instance=f"{fn.qual}: {what} updated at most once per call")
-        # 3. the success path reaches neither
+        # 3. the success path reaches neither: no non-exceptional path that is consistent with the
+        #    boolean flags assigned along it leads from the normal continuation of result() to a
+        #    failed-bookkeeping statement within the same iteration
         ok_succ = [m for m, lab in cfg.succ[r] if not lab.startswith("exc:")]
-        reach = cfg.reachable(ok_succ, avoid=[h.id],
-                              edge_ok=lambda a, b, lab: not lab.startswith("exc:"))
-        # path-sensitive flag idiom of the battery manager: `failed = True ... failed = False`
-        flag_tests = [t for t in reach if cfg.nodes[t].kind == "test"
-                      and isinstance(cfg.nodes[t].ast, ast.Name)]
-        hit = [x for x in fp_nodes + fs_nodes if x in reach]
-        if hit and flag_tests:
-            t = cfg.nodes[flag_tests[0]]
-            flag = t.ast.id  # type: ignore[union-attr]
-            # on the success path the flag's last write before the test is the constant False
-            last_false = False
-            for x in ok_succ:
-                s = cfg.nodes[x].ast
-                if isinstance(s, ast.Assign) and u(s.targets[0]) == flag and isinstance(
-                        s.value, ast.Constant) and s.value.value is False:
-                    last_false = True
-            init_true = any(
-                isinstance(cfg.nodes[x].ast, ast.Assign) and u(cfg.nodes[x].ast.targets[0]) == flag  # type: ignore[union-attr]
-                and isinstance(cfg.nodes[x].ast.value, ast.Constant)  # type: ignore[union-attr]
-                and cfg.nodes[x].ast.value.value is True for x in body)  # type: ignore[union-attr]
-            guarded = all(
-                cfg.path(t.id, [x], edge_ok=lambda a, b, lab, tid=t.id: not (a == tid and lab == "false")
-                         ) is not None and cfg.path(
-                    t.id, [x], edge_ok=lambda a, b, lab, tid=t.id: not (a == tid and lab == "true")) is None
-                for x in hit)
-            ok = last_false and init_true and guarded
-            run.check(ok, "C15.FAIL", fn.qual, f"if {flag}: failed bookkeeping",
-                      "a successful call can be booked as failed (or a failed one as succeeded): "
-                      f"the `{flag}` flag is not cleared exactly on the success path",
-                      node=t.ast, file=fn.file,
-                      instance=f"{fn.qual}: success path skips failed bookkeeping (flag `{flag}`)")
-        else:
-            wit = cfg.path(ok_succ[0], hit, avoid=[h.id]) if hit else None
-            run.check(not hit, "C15.FAIL", fn.qual, "success path",
-                      "a successful set_power call is also booked as failed", node=rn.ast,
-                      file=fn.file, path=cfg.describe_path(wit),
-                      instance=f"{fn.qual}: success path skips failed bookkeeping")
+        hit = fp_nodes + fs_nodes
+        wit = None
+        for st in at_r:
+            for s0 in ok_succ:
+                if s0 in hit:
+                    wit = [(r, ""), (s0, "next")]
+                else:
+                    wit = cfg.path_flags(s0, hit, flags, init=st, avoid=[h.id], edge_ok=normal_edge)
+                if wit:
+                    break
+            if wit:
+                break
+        run.check(bool(ok_succ) and wit is None, "C15.FAIL", fn.qual, "success path",
+                  "a successful set_power call is also booked as failed (the failed bookkeeping is "
+                  "reachable when task.result() returns normally)", node=rn.ast,
+                  file=fn.file, path=cfg.describe_path(wit),
+                  instance=f"{fn.qual}: success path skips failed bookkeeping")
         # 4. what is added is the allocation of *this* component from the sent allocations
         s = cfg.nodes[fp_nodes[0]].ast
-        alloc_name = u(s.value.value)  # type: ignore[union-attr]
-        run.check(alloc_name in fn.params, "C15.FAIL", fn.qual, s,
+        alloc_name = sorted(allocs)[0]
+        run.check(len(allocs) == 1 and alloc_name in fn.params, "C15.FAIL", fn.qual, s,
                   "failed power is not taken from the allocation map that was sent",
                   node=s, file=fn.file,
-                  instance=f"{fn.qual}: failed_power += {alloc_name}[{key_var}] (sent allocations)")
-        # failed power starts at zero
-        inits = [n.ast for n in cfg.nodes if n.kind == "stmt" and isinstance(
-            n.ast, (ast.Assign, ast.AnnAssign)) and any(u(w) == fp_name for w in node_writes(cfg, n.id))]
-        te = TermEval()
-        run.check(len(inits) == 1 and te.ev(inits[0].value).is_zero(), "C15.FAIL", fn.qual,  # type: ignore[union-attr]
-                  f"{fp_name} = 0", "failed power does not start at zero", node=fn.node,
-                  file=fn.file, instance=f"{fn.qual}: {fp_name} starts at 0")
+                  instance=f"{fn.qual}: failed power += <allocation parameter>[{key_var}] (sent allocations)")
+        # failed power starts at zero: its only other write is one zero initialisation before the loop
+        writes = [n.id for n in cfg.nodes if n.kind in ("stmt", "for", "with")
+                  and any(u(w) == fp_name for w in node_writes(cfg, n.id))]
+        inits = [x for x in writes if x not in fp_nodes and x not in stray]
+        ok = len(inits) == 1 and inits[0] not in body and h.id != inits[0] \
+            and isinstance(cfg.nodes[inits[0]].ast, (ast.Assign, ast.AnnAssign)) \
+            and cfg.nodes[inits[0]].ast.value is not None \
+            and te.ev(cfg.nodes[inits[0]].ast.value).is_zero()  # type: ignore[union-attr]
+        run.check(ok, "C15.FAIL", fn.qual,
+                  "failed power = 0 before the loop", "failed power does not start at zero", node=fn.node,
+                  file=fn.file, instance=f"{fn.qual}: failed power starts at 0")
+        out[fn.qual] = {"alloc": alloc_name, "tasks": tasks_map, "key": key_var}
+    return out
 
 
 # ---------------------------------------------------------------------------------------------
-def check_sets(run: Run, prog: Program) -> None:
+def _adds_key(s: ast.AST, name: str, key: str) -> bool | None:
+    """True: `name` grows by exactly the loop key; False: grows by something else; None: untouched."""
+    g = set_growth(s)
+    if g is None or g[0] != name:
+        return None
+    ops = g[1]
+    if len(ops) != 1:
+        return False
+    o = ops[0]
+    is_add = isinstance(s, ast.Expr) and s.value.func.attr == "add"  # type: ignore[attr-defined]
+    if is_add:
+        return isinstance(o, ast.Name) and o.id == key
+    return isinstance(o, (ast.Set, ast.List, ast.Tuple)) and len(o.elts) == 1 and u(o.elts[0]) == key
+
+
+def check_sets(run: Run, prog: Program, roles: BatteryRoles) -> None:
     # battery: succeeded = addressed - failed
-    fn = prog.func(f"{BM}._distribute_power")
+    fn, cfg = roles.dp, roles.dp_cfg
     run.analysed(fn.qual)
-    ctors = find_calls(fn.node, lambda c: u(c.func) in ("Success", "PartialFailure"))
-    # names: failed set = 2nd result of _set_distributed_power; addressed map = dict filled in the loop
-    failed_name = None
-    for s in body_walk(fn.node):
-        if isinstance(s, ast.Assign) and isinstance(s.targets[0], ast.Tuple) and len(s.targets[0].elts) == 2 \
-                and isinstance(s.value, ast.Await) and isinstance(s.value.value, ast.Call) \
-                and method_call(s.value.value, "self", "_set_distributed_power"):
-            failed_name = u(s.targets[0].elts[1])
-    addressed = None
-    for s in body_walk(fn.node):
-        if isinstance(s, ast.For) and u(s.iter) == "distribution.distribution.items()":
-            for x in ast.walk(s):
-                if isinstance(x, ast.Assign) and isinstance(x.targets[0], ast.Subscript):
-                    addressed = u(x.targets[0].value)
-    if failed_name is None or addressed is None:
+    ctors = all_ctors(fn.node)
+    failed_name, dist = roles.failed_set, roles.dist
+    # the addressed-battery map: the dict filled while walking every entry of the distribution that is sent
+    src_forms = {f"{dist}.distribution.items()", f"{dist}.distribution.keys()", f"{dist}.distribution"}
+    loops = [n for n in body_walk(fn.node) if isinstance(n, ast.For) and u(n.iter) in src_forms]
+    filled: set[str] = set()
+    for lp in loops:
+        for x in ast.walk(lp):
+            tgt = None
+            if isinstance(x, ast.Assign) and len(x.targets) == 1:
+                tgt = x.targets[0]
+            elif isinstance(x, (ast.AugAssign, ast.AnnAssign)):
+                tgt = x.target
+            if isinstance(tgt, ast.Subscript) and isinstance(tgt.value, ast.Name):
+                filled.add(tgt.value.id)
+    if len(filled) != 1:
         raise AnalysisError(f"{fn.qual}: failed set / addressed battery map not identified")
-    all_keys = {f"set({addressed}.keys())", f"set({addressed})", f"{addressed}.keys()"}
+    addressed = next(iter(filled))
+    keys = ("keys", addressed)
     for c in ctors:
-        kws = {k.arg: k.value for k in c.keywords if k.arg}
-        kind = u(c.func)
-        sc = kws["succeeded_components"]
-        branch = _enclosing_branch(fn.node, c)
-        defs = [s for s in branch if isinstance(s, ast.Assign) and u(s.targets[0]) == u(sc)]
-        val = u(defs[-1].value) if defs else u(sc)
-        v = val.replace(" ", "")
+        kind, f = ctor_fields(prog, fn, c)
+        site = _site(cfg, fn, c)
+        t = set_term(cfg, site, f["succeeded_components"])
+        diff_ok = t[0] == "diff" and t[1] == keys and t[2] in (("name", failed_name), ("keys", failed_name))
         if kind == "PartialFailure":
-            ok = v in {f"{k}-{failed_name}" for k in all_keys} and u(kws["failed_components"]) == failed_name
+            ok = diff_ok and set_term(cfg, site, f["failed_components"]) == ("name", failed_name)
         else:
-            ok = v in all_keys
-        run.check(ok, "C15.SETS", fn.qual, f"{kind}(succeeded_components={val})",
+            # Success is built only when the failed set is empty (decided below): A - {} == A
+            ok = t == keys or diff_ok
+        run.check(ok, "C15.SETS", fn.qual, f"{kind}(succeeded_components={show_term(t)})",
                   "succeeded components are not `addressed - failed` (sets would overlap or miss "
-                  "addressed components)", node=c, file=fn.file)
-    # Success only when nothing failed
-    cfg = CFG(fn.node, fn.file)
-    tests = [t for t in cfg.nodes if t.kind == "test" and failed_name in t.label]
-    ok = len(tests) == 1 and u(tests[0].ast).replace(" ", "") in (
-        f"len({failed_name})>0", failed_name, f"len({failed_name})!=0", f"0<len({failed_name})")
-    run.check(ok, "C15.SETS", fn.qual, f"PartialFailure iff {failed_name}",
+                  "addressed components)", node=c, file=fn.file,
+                  instance=f"{fn.qual}: {kind} succeeded components == addressed batteries"
+                           + (" - failed" if kind == "PartialFailure" else ""))
+    # Success only when nothing failed, PartialFailure only when something failed
+    rebinds = [n.id for n in cfg.nodes if n.ast is not None and any(u(w) == failed_name for w in node_writes(cfg, n.id))]
+    grows = [n.id for n in cfg.nodes if n.kind == "stmt" and n.ast is not None
+             and (g := set_growth(n.ast)) is not None and g[0] == failed_name]
+    ok = len(rebinds) == 1 and not grows
+    for c in ctors:
+        kind = ctor_kind(c)
+        ok = ok and guarded_by_emptiness(cfg, _site(cfg, fn, c), c, failed_name, want_nonempty=(kind == "PartialFailure"))
+    run.check(ok, "C15.SETS", fn.qual, "PartialFailure iff the failed set is non-empty",
               "Success/PartialFailure is not selected by whether any component failed",
-              node=fn.node, file=fn.file)
+              node=fn.node, file=fn.file, instance=f"{fn.qual}: PartialFailure iff failed set non-empty")
     # addressed batteries derive from every inverter of the distribution
-    loops = [n for n in body_walk(fn.node) if isinstance(n, ast.For)
-             and u(n.iter) == "distribution.distribution.items()"]
-    run.check(len(loops) == 1, "C15.SETS", fn.qual, "for inverter_id, dist in distribution.distribution.items()",
+    run.check(len(loops) == 1, "C15.SETS", fn.qual, "for <inverter, power> in <distribution>.distribution.items()",
               "the addressed battery set is not derived from every entry of the distribution",
-              node=fn.node, file=fn.file)
+              node=fn.node, file=fn.file,
+              instance=f"{fn.qual}: addressed batteries derived from every entry of the distribution")
     # PV: per iteration exactly one of succeeded.add / failed.add
-    pv = prog.func(f"{PV}._set_api_power")
+    pv = _norm(prog, prog.func(f"{PV}._set_api_power"))
     run.analysed(pv.qual)
     cfg = CFG(pv.node, pv.file)
-    res = nodes_with_call(cfg, lambda c: isinstance(c.func, ast.Attribute) and c.func.attr == "result"
-                          and not c.args)
-    h = [n for n in cfg.nodes if n.kind == "for" and res and res[0] in cfg.reachable(
-        [m for m, lab in cfg.succ[n.id] if lab == "iter"], avoid=[n.id])]
-    if len(h) != 1:
-        raise AnalysisError(f"{pv.qual}: result loop not found")
-    hd = h[0]
-    key = u(hd.ast.target.elts[0])  # type: ignore[union-attr]
-    succ_add = nodes_with_call(cfg, lambda c: method_call(c, "succeeded_components", "add")
-                               and [u(a) for a in c.args] == [key])
-    fail_add = nodes_with_call(cfg, lambda c: method_call(c, "failed_components", "add")
-                               and [u(a) for a in c.args] == [key])
-    first = [m for m, lab in cfg.succ[hd.id] if lab == "iter"][0]
-    wit = cfg.path(first, [hd.id], avoid=succ_add + fail_add)
-    both = None
-    for a in succ_add:
-        both = cfg.path(a, fail_add, avoid=[hd.id])
-        if both:
-            break
-    if both is None:
-        for a in fail_add:
-            both = cfg.path(a, succ_add, avoid=[hd.id])
+    _r, hd, key, _tm, body = result_loop(cfg, pv.qual)
+    ctors = all_ctors(pv.node)
+    succ_names: set[str] = set()
+    fail_names: set[str] = set()
+    carried = True
+    for c in ctors:
+        kind, f = ctor_fields(prog, pv, c)
+        site = _site(cfg, pv, c)
+        ts = set_term(cfg, site, f["succeeded_components"])
+        tf = set_term(cfg, site, f["failed_components"]) if kind == "PartialFailure" else None
+        ok = ts[0] == "name" and (tf is None or tf[0] == "name")
+        carried = carried and ok
+        if ts[0] == "name":
+            succ_names.add(ts[1])
+        if tf is not None and tf[0] == "name":
+            fail_names.add(tf[1])
+        run.check(ok, "C15.SETS", pv.qual, c, "the result does not carry the accumulated sets",
+                  node=c, file=pv.file, instance=f"{pv.qual}: {kind} carries the accumulated component sets")
+    if carried and len(succ_names) == 1 and len(fail_names) == 1 and succ_names != fail_names:
+        s_name, f_name = next(iter(succ_names)), next(iter(fail_names))
+        succ_add, fail_add, other = [], [], []
+        for x in sorted(body):
+            n = cfg.nodes[x]
+            if n.kind != "stmt" or n.ast is None:
+                continue
+            for name, acc in ((s_name, succ_add), (f_name, fail_add)):
+                a = _adds_key(n.ast, name, key)
+                if a is True:
+                    acc.append(x)
+                elif a is False:
+                    other.append(x)
+        flags = cfg.bool_flags()
+        first = [m for m, lab in cfg.succ[hd.id] if lab == "iter"][0]
+        wit = None if first in succ_add + fail_add else cfg.path_flags(
+            first, [hd.id], flags, avoid=succ_add + fail_add)
+        both = None
+        for a in succ_add:
+            both = cfg.path(a, fail_add, avoid=[hd.id])
             if both:
                 break
-    run.check(bool(succ_add) and bool(fail_add) and wit is None and both is None, "C15.SETS", pv.qual,
-              "each component lands in exactly one of succeeded/failed",
-              "an addressed component can end in neither or in both result sets", node=pv.node,
-              file=pv.file, path=cfg.describe_path(wit or both))
-    ctors = find_calls(pv.node, lambda c: u(c.func) in ("Success", "PartialFailure"))
-    for c in ctors:
-        kws = {k.arg: u(k.value) for k in c.keywords if k.arg}
-        ok = kws.get("succeeded_components") == "succeeded_components" and (
-            u(c.func) == "Success" or kws.get("failed_components") == "failed_components")
-        run.check(ok, "C15.SETS", pv.qual, c, "the result does not carry the accumulated sets",
-                  node=c, file=pv.file)
-
-
-def _enclosing_branch(fn: ast.AST, target: ast.AST) -> list[ast.stmt]:
-    """The innermost statement list (if/else body or function body) containing `target`."""
-    best: list[ast.stmt] = []
-    for node in ast.walk(fn):
-        for field in ("body", "orelse", "finalbody"):
-            stmts = getattr(node, field, None)
-            if isinstance(stmts, list) and stmts and isinstance(stmts[0], ast.stmt):
-                if any(any(x is target for x in ast.walk(s)) for s in stmts):
-                    if not best or len(ast.dump(ast.Module(body=stmts, type_ignores=[]))) < len(
-                            ast.dump(ast.Module(body=best, type_ignores=[]))):
-                        best = stmts
-    return best
+        if both is None:
+            for a in fail_add:
+                both = cfg.path(a, succ_add, avoid=[hd.id])
+                if both:
+                    break
+        run.check(bool(succ_add) and bool(fail_add) and not other and wit is None and both is None,
+                  "C15.SETS", pv.qual, "each component lands in exactly one of succeeded/failed",
+                  "an addressed component can end in neither or in both result sets", node=pv.node,
+                  file=pv.file, path=cfg.describe_path(wit or both),
+                  instance=f"{pv.qual}: each component lands in exactly one of succeeded/failed")
+        # Success only when nothing failed, PartialFailure only when something failed: the failed set is
+        # complete (only filled inside the result loop) when the result kind is chosen
+        touched = [n.id for n in cfg.nodes if n.ast is not None and n.kind in ("stmt", "for", "with") and (
+            any(u(w) == f_name for w in node_writes(cfg, n.id))
+            or (n.kind == "stmt" and (g := set_growth(n.ast)) is not None and g[0] == f_name))]
+        late = [x for x in touched if x not in body and any(
+            cfg.path(x, [_site(cfg, pv, c)], include_src=False) is not None
+            and cfg.path(hd.id, [x]) is not None for c in ctors)]
+        ok = not late
+        for c in ctors:
+            site = _site(cfg, pv, c)
+            ok = ok and site not in body and guarded_by_emptiness(
+                cfg, site, c, f_name, want_nonempty=(ctor_kind(c) == "PartialFailure"))
+        run.check(ok, "C15.SETS", pv.qual, "PartialFailure iff the failed set is non-empty",
+                  "Success/PartialFailure is not selected by whether any component failed",
+                  node=pv.node, file=pv.file, instance=f"{pv.qual}: PartialFailure iff failed set non-empty")
+    else:
+        run.violation("C15.SETS", pv.qual, "each component lands in exactly one of succeeded/failed",
+                      "the succeeded / failed sets of the results are not two accumulators filled per "
+                      "set_power outcome", node=pv.node, file=pv.file)
 
 
 # ---------------------------------------------------------------------------------------------
-def check_all(run: Run, prog: Program) -> None:
-    for q, items in ((f"{BM}._set_distributed_power", "distribution.distribution.items()"),
-                     (f"{PV}._set_api_power", "allocations.items()")):
-        fn = prog.func(q)
+def _cancel_tasks_ok(prog: Program) -> tuple[FuncInfo, bool]:
+    """BatteryManager._cancel_tasks(P): cancels every element of P, then awaits all of them
+    (gather with return_exceptions=True) on every normal path."""
+    ct = _norm(prog, prog.func(f"{BM}._cancel_tasks"))
+    ps = method_params(ct)
+    if len(ps) != 1:
+        return ct, False
+    cfg = CFG(ct.node, ct.file)
+    loops, gathers = cancel_and_gather(cfg, ps[0])
+    ok = bool(loops) and bool(gathers) \
+        and cfg.path(cfg.entry, [cfg.exit], avoid=gathers, edge_ok=normal_edge) is None \
+        and cfg.path(cfg.entry, gathers, avoid=loops, edge_ok=normal_edge) is None
+    return ct, ok
+
+
+def check_all(run: Run, prog: Program, roles: BatteryRoles, loops_info: dict[str, dict[str, str]]) -> None:
+    pv = _norm(prog, prog.func(f"{PV}._set_api_power"))
+    sd = roles.sd
+    pr_info = loops_info.get(roles.pr.qual)
+    pv_info = loops_info.get(pv.qual)
+    sends: dict[str, dict[str, Any]] = {}
+    for fn, want_map in ((sd, None), (pv, pv_info["alloc"] if pv_info else None)):
         run.analysed(fn.qual)
+        if fn is sd:
+            d = typed_param(fn, "DistributionResult", "distribution")
+            if d is None:
+                raise AnalysisError(f"{fn.qual}: no `DistributionResult` parameter")
+            want_map = f"{d}.distribution"
         # every entry -> one set_power task
-        ok = False
         sp = find_calls(fn.node, lambda c: isinstance(c.func, ast.Attribute) and c.func.attr == "set_power")
         detail = f"expected exactly one set_power call site, found {len(sp)}"
+        ok = False
+        send: dict[str, Any] = {"tasks": None, "map": None}
         if len(sp) == 1:
-            call = sp[0]
-            for n in ast.walk(fn.node):
-                if isinstance(n, ast.DictComp) and any(x is call for x in ast.walk(n.value)):
-                    g = n.generators[0]
-                    ok = len(n.generators) == 1 and not g.ifs and u(g.iter) == items \
-                        and u(n.key) == u(g.target.elts[0]) and u(call.args[0]) == u(g.target.elts[0])  # type: ignore[union-attr]
-                    detail = "the task map is filtered or keyed by something else than the component id"
-                if isinstance(n, ast.For) and any(x is call for x in ast.walk(n)) and u(n.iter) == items:
-                    direct = [s for s in n.body if any(x is call for x in ast.walk(s))]
-                    ok = bool(direct) and isinstance(direct[0], ast.Assign) \
-                        and u(direct[0].targets[0]) == f"tasks[{u(n.target.elts[0])}]" \
-                        and u(call.args[0]) == u(n.target.elts[0]) \
-                        and not any(isinstance(x, (ast.If, ast.Continue, ast.Break)) for s in n.body
-                                    for x in ast.walk(s))  # type: ignore[union-attr]
-                    detail = "set_power is not issued unconditionally for every allocation"
-            # the power sent is the allocated one
-            if ok:
-                pw = u(call.args[1]) if len(call.args) > 1 else ""
-                ok = pw in ("power", "power.as_watts()")
-                detail = f"the power sent (`{pw}`) is not the entry's allocated power"
-        run.check(ok, "C15.ALL", fn.qual, f"one set_power per entry of {items}", detail,
-                  node=fn.node, file=fn.file)
+            send = match_send(fn.node, sp[0])
+            ok, detail = send["ok"], send["detail"]
+            if ok and want_map is not None and send["map"] != want_map:
+                ok = False
+                detail = (f"set_power is issued for the entries of `{send['map']}`, not of the allocation map "
+                          f"`{want_map}` that is accounted")
+        sends[fn.qual] = send
+        run.check(ok, "C15.ALL", fn.qual, f"one set_power per entry of {want_map or 'the allocation map'}", detail,
+                  node=fn.node, file=fn.file, instance=f"{fn.qual}: one set_power per entry of the allocation map")
         # wait(all, timeout) then cancel+await pending before parsing
         cfg = CFG(fn.node, fn.file)
-        waits = [x for x in nodes_with_call(cfg, lambda c: u(c.func) == "asyncio.wait") if cfg.is_await(x)]
-        ok = len(waits) == 1
+        tasks = send.get("tasks")
+        waits = [x for x in nodes_with_call(cfg, lambda c: u(c.func) in ("asyncio.wait", "wait")) if cfg.is_await(x)]
+        ok = len(waits) == 1 and tasks is not None
         wit = None
         if ok:
-            wcall = node_calls(cfg, waits[0], lambda c: u(c.func) == "asyncio.wait")[0]
+            wcall = node_calls(cfg, waits[0], lambda c: u(c.func) in ("asyncio.wait", "wait"))[0]
             kws = {k.arg: u(k.value) for k in wcall.keywords}
-            ok = u(wcall.args[0]) == "tasks.values()" and "timeout" in kws and \
-                kws.get("return_when", "asyncio.ALL_COMPLETED") == "asyncio.ALL_COMPLETED"
+            waited = u(wcall.args[0]) if wcall.args else kws.get("fs", "")
+            ok = waited in (f"{tasks}.values()", f"list({tasks}.values())", f"set({tasks}.values())") \
+                and "timeout" in kws and kws.get("return_when", "asyncio.ALL_COMPLETED") in (
+                    "asyncio.ALL_COMPLETED", "ALL_COMPLETED")
             s = cfg.nodes[waits[0]].ast
             pend = u(s.targets[0].elts[1]) if isinstance(s, ast.Assign) and isinstance(  # type: ignore[union-attr]
-                s.targets[0], ast.Tuple) else None
+                s.targets[0], ast.Tuple) and len(s.targets[0].elts) == 2 else None
             if ok and pend:
                 cancels = nodes_with_call(cfg, lambda c: method_call(c, "self", "_cancel_tasks")
-                                          and [u(a) for a in c.args] == [pend])
+                                          and [u(a) for a in bound_args(
+                                              c, method_params(prog.func(f"{BM}._cancel_tasks")),
+                                              "_cancel_tasks").values()] == [pend])
+                cancels = [x for x in cancels if cfg.is_await(x)]
                 if not cancels:
-                    c1 = nodes_with_call(cfg, lambda c: isinstance(c.func, ast.Attribute)
-                                         and c.func.attr == "cancel")
-                    g1 = [x for x in nodes_with_call(cfg, lambda c: u(c.func) == "asyncio.gather"
-                                                     and any(u(a) == f"*{pend}" for a in c.args))
-                          if cfg.is_await(x)]
-                    cancels = g1 if c1 and g1 and cfg.path(c1[0], g1) is not None else []
+                    c1, g1 = cancel_and_gather(cfg, pend)
+                    cancels = g1 if c1 and g1 and cfg.path(cfg.entry, g1, avoid=c1, edge_ok=normal_edge) is None else []
                 readers = nodes_with_call(cfg, lambda c: (isinstance(c.func, ast.Attribute)
                                           and c.func.attr in ("result", "_parse_result")))
                 ok = bool(cancels) and bool(readers)
                 if ok:
                     wit = cfg.path(waits[0], readers, avoid=cancels)
                     ok = wit is None
+            else:
+                ok = False
         run.check(ok, "C15.ALL", fn.qual, "wait(all tasks, timeout) -> cancel+await pending -> read results",
                   "results are read while timed-out calls may still be running (not cancelled and "
                   "awaited first), or not all calls are awaited", node=fn.node, file=fn.file,
-                  path=cfg.describe_path(wit))
+                  path=cfg.describe_path(wit),
+                  instance=f"{fn.qual}: wait(all tasks, timeout) -> cancel+await pending -> read results")
     # _cancel_tasks cancels all and awaits
-    ct = prog.func(f"{BM}._cancel_tasks")
+    ct, ok = _cancel_tasks_ok(prog)
     run.analysed(ct.qual)
-    txt = u(ct.node)
-    run.check(".cancel()" in txt and "await asyncio.gather(*tasks, return_exceptions=True)" in txt,
-              "C15.ALL", ct.qual, "cancel every task then gather(return_exceptions=True)",
-              "_cancel_tasks does not cancel and await every pending task", node=ct.node, file=ct.file)
+    run.check(ok, "C15.ALL", ct.qual, "cancel every task then gather(return_exceptions=True)",
+              "_cancel_tasks does not cancel and await every pending task", node=ct.node, file=ct.file,
+              instance=f"{ct.qual}: cancel every task then await gather(return_exceptions=True)")
     # battery: what is parsed is what was sent
-    sd = prog.func(f"{BM}._set_distributed_power")
-    calls = find_calls(sd.node, lambda c: method_call(c, "self", "_parse_result"))
-    ok = len(calls) == 1 and [u(a) for a in calls[0].args][:2] == ["tasks", "distribution.distribution"]
-    run.check(ok, "C15.ALL", sd.qual, "self._parse_result(tasks, distribution.distribution, ...)",
+    send = sends[sd.qual]
+    ok = False
+    if pr_info is not None and send.get("tasks"):
+        args = bound_args(roles.pr_call, method_params(roles.pr), f"{sd.qual}: self._parse_result(...)")
+        ok = u(args.get(pr_info["tasks"])) == send["tasks"] and u(args.get(pr_info["alloc"])) == send["map"]
+    run.check(ok, "C15.ALL", sd.qual, "self._parse_result(<task map>, <sent allocation map>, ...)",
               "results are parsed against a different allocation map than the one sent",
-              node=sd.node, file=sd.file)
+              node=sd.node, file=sd.file, instance=f"{sd.qual}: parsed allocation map == sent allocation map")
+    # PV: the results that are read are those of the tasks that were created
+    send = sends[pv.qual]
+    ok = pv_info is not None and send.get("tasks") is not None and pv_info["tasks"] == send["tasks"]
+    run.check(ok, "C15.ALL", pv.qual, "results are read from the task map that was filled",
+              "the result loop does not walk the task map filled by the sending loop",
+              node=pv.node, file=pv.file, instance=f"{pv.qual}: result loop walks the created tasks")
 
 
 CONTROLS = [
@@ -463,9 +733,12 @@ CONTROLS = [
 
 def run_rules(run: Run, prog: Program) -> None:
     check_identity(run, prog)
-    check_fail(run, prog)
-    check_sets(run, prog)
-    check_all(run, prog)
+    roles = BatteryRoles(prog)
+    for rule, node, msg in roles.issues:
+        run.violation(rule, roles.dp.qual, node, msg, node=node, file=roles.dp.file)
+    info = check_fail(run, prog, roles)
+    check_sets(run, prog, roles)
+    check_all(run, prog, roles, info)
 
 
 def check(run: Run, prog: Program, tier: str) -> str:
